@@ -175,10 +175,16 @@ def call (dr : String → Bool) (cap : Nat) (f : Fn) (st : St) : Except MErr St 
   | .error e => .error e
   | .ok st' => finish dr st'
 
+def setFirst (d : D) (v : Val) : List Ext → List Ext
+  | [] => []
+  | e :: es =>
+    if e.off == d.offset && e.size == d.size && e.val.ty == d.ty && !e.moved then { e with val := v } :: es
+    else e :: setFirst d v es
+
 /-- assignment through a `&mut T` obtained from `get_mut` : the old value (if any) is dropped -/
 def Buf.assign (dr : String → Bool) (b : Buf) (d : D) (v : Val) : Buf × List Val :=
   match b.find d with
-  | some e => ({ b with exts := b.exts.map fun x => if x == e then { x with val := v } else x }, if dr d.ty then [e.val] else [])
+  | some e => ({ b with exts := setFirst d v b.exts }, if dr d.ty then [e.val] else [])
   | none => ({ b with exts := b.exts ++ [⟨d.offset, d.size, v, false⟩] }, [])
 
 end Truc.Mach
